@@ -138,6 +138,7 @@ func main() {
 		if e == nil {
 			os.Exit(2)
 		}
+		sim.RunPrelude(e, s, func(p *sim.Script) { e.Exec(p, false) })
 		e.Exec(s, false)
 	case "selftest":
 		exe, _ := os.Executable()
